@@ -508,6 +508,14 @@ def main():
     # classify failures
     fails = []
     for r in results:
+        # helpers that were added as stubs WITHOUT a contract (arbitrary result): a failed obligation of a caller then only
+        # says that the caller's proof needs to know what the helper does - inconclusive, not a violation
+        blind = [x for x in ((r.info or {}).get('auto_stubbed') or [])
+                 if not any(fn.get('fn') == x and fn.get('has_contract') for fn in (r.info or {}).get('functions', []))]
+        if blind and r.failures:
+            undecided.append('%s: proof inconclusive - %d obligation(s) fail, but the unit calls %s, which is outside the unit and has no contract (added as a stub with an arbitrary result)'
+                             % (r.unit, len(r.failures), ', '.join(blind)))
+            continue
         for f in r.failures:
             rel = relevant(f, prop, cfg)
             if rel is None:
